@@ -4,7 +4,7 @@
 usage: gen.py <repo> <outdir> <target>...      (targets: see TARGETS)
 Files are rewritten only when their content changes (so `make` rebuilds exactly the affected
 cone).  A construct outside the translator's subset prints `REFUSED <target>: <reason>` and the
-process exits 3; the previous generated file is then REMOVED so that no stale model can be built.
+process exits 3; the generated file is then replaced by a stub that does not compile, so no stale model can be built.
 """
 import ast
 import os
@@ -114,8 +114,10 @@ def main(argv):
             text = TARGETS[t](repo)
         except (Refuse, SyntaxError, OSError) as e:
             print("REFUSED %s: %s" % (t, e))
-            if os.path.exists(path):
-                os.remove(path)
+            # a stub that cannot compile: no stale model can be built, and coqdep still sees the file
+            with open(path, "w") as fh:
+                fh.write("(* TRANSLATION REFUSED: %s *)\nDefinition translation_refused : False := I.\n"
+                         % str(e).replace("*)", "* )"))
             rc = 3
             continue
         old = open(path).read() if os.path.exists(path) else None
